@@ -7,7 +7,7 @@ use std::sync::Arc;
 
 use super::{AsView, InitEmpty, NdTensor, NdTensorView, NdTensorViewMut, Tensor, TensorView};
 use crate::errors::{DimensionError, ExpandError, FromDataError};
-use crate::layout::{DynLayout, FromShape, MatrixLayout};
+use crate::layout::{DynLayout, FromShape, MatrixLayout, MutLayout, OverlapPolicy};
 use crate::prelude::*;
 use crate::rng::XorShiftRng;
 use crate::storage::{Alloc, IntoStorage};
@@ -621,6 +621,46 @@ fn test_from_storage_and_layout() {
     let tensor = Tensor::from_storage_and_layout(storage, layout);
     assert_eq!(tensor.shape(), &[3, 3]);
     assert_eq!(tensor.data(), Some([0, 1, 2, 3, 4, 5, 6, 7, 8].as_slice()));
+}
+
+#[test]
+fn test_constructors_reject_layouts_that_overflow() {
+    let half_max = 1usize << (usize::BITS - 1);
+    let sqrt_max = 1usize << (usize::BITS / 2);
+
+    // Element count wraps around to zero.
+    let x = NdTensor::<i32, 2>::try_from_data([sqrt_max, sqrt_max], vec![]);
+    assert_eq!(x, Err(FromDataError::StorageLengthMismatch));
+    let x = NdTensorView::<i32, 2>::try_from_data([sqrt_max, sqrt_max], [].as_slice());
+    assert_eq!(x.err(), Some(FromDataError::StorageLengthMismatch));
+
+    // Maximum offset wraps around to zero.
+    let x = NdTensorView::from_slice_with_strides([3], &[0i32], [half_max]);
+    assert_eq!(x.err(), Some(FromDataError::StorageTooShort));
+    let x = TensorView::from_slice_with_strides(&[3], &[0i32], &[half_max]);
+    assert_eq!(x.err(), Some(FromDataError::StorageTooShort));
+    let x = NdTensor::from_data_with_strides([3], vec![0i32], [half_max]);
+    assert!(x.is_err());
+    let x = NdTensor::from_data_with_strides([2], vec![0i32], [usize::MAX]);
+    assert_eq!(x, Err(FromDataError::StorageTooShort));
+
+    // Minimum data length (maximum offset + 1) wraps around to zero.
+    let x = NdTensorView::from_slice_with_strides([2, 2], &[0i32], [usize::MAX - 1, 1]);
+    assert_eq!(x.err(), Some(FromDataError::StorageTooShort));
+
+    let tensor = NdTensor::<i32, 2>::with_capacity([2, 4], 1);
+    assert!(tensor.has_capacity(1, 4));
+    assert!(!tensor.has_capacity(1, half_max + 1));
+    assert!(!tensor.has_capacity(1, usize::MAX));
+}
+
+#[test]
+#[should_panic(expected = "storage is too short for layout")]
+fn test_from_storage_and_layout_overflow() {
+    let half_max = 1usize << (usize::BITS - 1);
+    let layout =
+        NdLayout::from_shape_and_strides([3], [half_max], OverlapPolicy::AllowOverlap).unwrap();
+    NdTensorView::from_storage_and_layout([0i32].as_slice().into_storage(), layout);
 }
 
 #[test]
